@@ -103,60 +103,177 @@ func (p *Program) ruleConvexFSM(c *Check) {
 		}
 		return true
 	})
-	// the slice: statements of the main loop after `if flag { continue }`
-	var slice []ast.Stmt
-	ast.Inspect(fd.Body, func(n ast.Node) bool {
-		fs, ok := n.(*ast.ForStmt)
-		if !ok || slice != nil {
-			return true
-		}
-		for i, st := range fs.Body.List {
-			if is, ok := st.(*ast.IfStmt); ok && len(is.Body.List) == 1 {
-				if br, ok := is.Body.List[0].(*ast.BranchStmt); ok && br.Tok == token.CONTINUE {
-					if id, ok := is.Cond.(*ast.Ident); ok && flagObj != nil && info.Uses[id] == flagObj {
-						slice = fs.Body.List[i+1:]
+	// the loop whose body updates the flag
+	var loopBody []ast.Stmt
+	var loopPos token.Pos
+	assignsFlag := func(n ast.Node) bool {
+		return mentions(n, func(m ast.Node) bool {
+			if as, ok := m.(*ast.AssignStmt); ok {
+				for _, l := range as.Lhs {
+					if id, ok := l.(*ast.Ident); ok && flagObj != nil && info.Uses[id] == flagObj {
+						return true
 					}
 				}
+			}
+			return false
+		})
+	}
+	ast.Inspect(fd.Body, func(n ast.Node) bool {
+		switch l := n.(type) {
+		case *ast.ForStmt:
+			if loopBody == nil && assignsFlag(l.Body) {
+				loopBody, loopPos = l.Body.List, l.Pos()
+			}
+		case *ast.RangeStmt:
+			if loopBody == nil && assignsFlag(l.Body) {
+				loopBody, loopPos = l.Body.List, l.Pos()
 			}
 		}
 		return true
 	})
-	if flagObj == nil || slice == nil {
-		c.Undecided("E13.fsm", con, p.declPos(fn), "the convexity update (statements after `if concave { continue }`) was not found")
+	if flagObj == nil || loopBody == nil {
+		c.Undecided("E13.fsm", con, p.declPos(fn), "the loop that updates the convexity flag was not found")
 		return
 	}
-	// the turn: the first := in the slice whose right-hand side is arithmetic
+	// backward slice at statement granularity: the variables the flag depends on
+	V := map[types.Object]bool{flagObj: true}
 	var turnObj types.Object
-	start := 0
-	for i, st := range slice {
-		if as, ok := st.(*ast.AssignStmt); ok && as.Tok == token.DEFINE && len(as.Lhs) == 1 && hasArithmetic(as) {
-			if id, ok := as.Lhs[0].(*ast.Ident); ok {
-				turnObj = info.Defs[id]
-				start = i + 1
-				break
-			}
+	isLocalBasic := func(o types.Object) bool {
+		v, ok := o.(*types.Var)
+		if !ok || v.IsField() || o.Pkg() == nil || o.Parent() == o.Pkg().Scope() {
+			return false
 		}
+		_, basic := o.Type().Underlying().(*types.Basic)
+		return basic
 	}
-	if turnObj == nil {
-		c.Undecided("E13.fsm", con, p.declPos(fn), "the turn (cross product) variable was not found")
-		return
-	}
-	body := slice[start:]
-	// loop-carried state: identifiers assigned in the slice, declared outside it
-	stateObjs := map[types.Object]bool{}
-	for _, st := range body {
-		ast.Inspect(st, func(n ast.Node) bool {
-			if as, ok := n.(*ast.AssignStmt); ok && as.Tok != token.DEFINE {
-				for _, l := range as.Lhs {
-					if id, ok := l.(*ast.Ident); ok {
-						if o := info.Uses[id]; o != nil {
-							stateObjs[o] = true
-						}
-					}
+	var visit func(list []ast.Stmt, conds []ast.Expr) bool
+	addIdents := func(e ast.Node) bool {
+		ch := false
+		ast.Inspect(e, func(m ast.Node) bool {
+			if id, ok := m.(*ast.Ident); ok {
+				if o := info.Uses[id]; o != nil && isLocalBasic(o) && !V[o] {
+					V[o] = true
+					ch = true
 				}
 			}
 			return true
 		})
+		return ch
+	}
+	visit = func(list []ast.Stmt, conds []ast.Expr) bool {
+		ch := false
+		for _, st := range list {
+			switch x := st.(type) {
+			case *ast.AssignStmt:
+				for i, l := range x.Lhs {
+					id, ok := l.(*ast.Ident)
+					if !ok {
+						continue
+					}
+					o := info.Uses[id]
+					if o == nil {
+						o = info.Defs[id]
+					}
+					if o == nil || !V[o] {
+						continue
+					}
+					if hasArithmetic(x) {
+						turnObj = o // the turn: defined by arithmetic on the coordinates; an input of the sign domain
+						continue
+					}
+					if i < len(x.Rhs) && addIdents(x.Rhs[i]) {
+						ch = true
+					}
+					for _, cnd := range conds {
+						if addIdents(cnd) {
+							ch = true
+						}
+					}
+				}
+			case *ast.IfStmt:
+				nc := append(append([]ast.Expr{}, conds...), x.Cond)
+				if visit(x.Body.List, nc) {
+					ch = true
+				}
+				if x.Else != nil {
+					if b, ok := x.Else.(*ast.BlockStmt); ok {
+						if visit(b.List, nc) {
+							ch = true
+						}
+					} else if visit([]ast.Stmt{x.Else}, nc) {
+						ch = true
+					}
+				}
+			case *ast.SwitchStmt:
+				for _, cl := range x.Body.List {
+					cc := cl.(*ast.CaseClause)
+					nc := append([]ast.Expr{}, conds...)
+					if x.Tag != nil {
+						nc = append(nc, x.Tag)
+					}
+					nc = append(nc, cc.List...)
+					if visit(cc.Body, nc) {
+						ch = true
+					}
+				}
+			case *ast.BlockStmt:
+				if visit(x.List, conds) {
+					ch = true
+				}
+			}
+		}
+		return ch
+	}
+	for i := 0; i < 10 && visit(loopBody, nil); i++ {
+	}
+	if turnObj == nil {
+		c.Undecided("E13.fsm", con, p.declPos(fn), "the turn (cross product) variable was not found among the variables the convexity flag depends on")
+		return
+	}
+	// the statements of the loop body that touch those variables (the definition of the turn is skipped: it stays an input)
+	var body []ast.Stmt
+	for _, st := range loopBody {
+		touches := mentions(st, func(m ast.Node) bool {
+			id, ok := m.(*ast.Ident)
+			if !ok {
+				return false
+			}
+			o := info.Uses[id]
+			if o == nil {
+				o = info.Defs[id]
+			}
+			return o != nil && V[o]
+		})
+		if touches {
+			body = append(body, st)
+		}
+	}
+	// loop-carried state: the variables of the slice declared before the loop
+	stateObjs := map[types.Object]bool{}
+	for o := range V {
+		if o != turnObj && o.Pos() < loopPos {
+			if b, ok := o.Type().Underlying().(*types.Basic); ok && (b.Info()&(types.IsBoolean|types.IsInteger|types.IsFloat) != 0) {
+				// only variables that the slice assigns are state; others (loop bounds, parameters) would be inputs
+				assigned := false
+				for _, st := range body {
+					if mentions(st, func(m ast.Node) bool {
+						if as, ok := m.(*ast.AssignStmt); ok {
+							for _, l := range as.Lhs {
+								if id, ok := l.(*ast.Ident); ok && info.Uses[id] == o {
+									return true
+								}
+							}
+						}
+						return false
+					}) {
+						assigned = true
+					}
+				}
+				if assigned {
+					stateObjs[o] = true
+				}
+			}
+		}
 	}
 	var objs []types.Object
 	for o := range stateObjs {
@@ -225,8 +342,12 @@ func (p *Program) ruleConvexFSM(c *Check) {
 		}
 		a := &e8assign{rank: map[string]int{}, bools: map[string]bool{}, group: func(string) int { return 0 }}
 		a.resolve = func(name string) (int, bool) { return signOf(name, base) }
-		in := &e8interp{p: p, a: a}
-		in.runBody(fr, body)
+		in := &e8interp{p: p, a: a, frozen: map[types.Object]bool{turnObj: true}}
+		for _, st := range body {
+			if r := in.exec(fr, st); r != nil {
+				break // continue / break: the iteration is over
+			}
+		}
 		out = make([]stval, len(objs))
 		for i, o := range objs {
 			v := fr.vars[o]
